@@ -132,10 +132,14 @@ impl Span {
     ///
     /// TODO: return the rejects as Span, instead of Contacts
     pub(crate) fn endorse(self) -> Endorse<FragmentSpan, Span> {
+        #[cfg(feature = "verif")]
+        crate::verif::point("span:endorse");
         // try to endorse as circles or arcs
         let (mut accepted, un_endorsed_span): (Vec<FragmentSpan>, Span) =
             self.endorse_to_arcs_and_circles();
 
+        #[cfg(feature = "verif")]
+        crate::verif::point("span:contacts");
         // convert into contacts and try to endorse as rects fragments
         let un_endorsed_contacts: Vec<Contacts> = un_endorsed_span.into();
         let rect_endorsed: Endorse<FragmentSpan, Contacts> =
@@ -307,6 +311,8 @@ impl<'p> From<Span> for PropertyBuffer<'p> {
 ///
 impl From<Span> for Vec<Contacts> {
     fn from(span: Span) -> Vec<Contacts> {
+        #[cfg(feature = "verif")]
+        crate::verif::point("span:fragments");
         let fb = FragmentBuffer::from(span);
         let merged_fragments: Vec<FragmentSpan> = fb.merge_fragment_spans();
         let contacts: Vec<Contacts> = merged_fragments
